@@ -12,7 +12,7 @@ SPEC = {
          "eval": "check_case", "per_shard": 250},
     ],
     "classes": {1: "dup-id-replaces", 2: "subscribe-before-ack-1011", 3: "bad-frame-1002"},
-    "n_quick": 4000, "n_thorough": 40000,
+    "n_quick": 4500, "n_thorough": 45000,
     "level": "proof",
     "what_violation": "websocket session deviates from the protocol / from the verified state machine",
     "rule": ("scripts of client frames (init, start/subscribe with ids a,b,c incl. duplicates, stop/complete, ping, pong, "
@@ -20,8 +20,10 @@ SPEC = {
              "for both protocols with and without keep-alive: a fixed corpus (witnesses of the three findings, boundary "
              "conversations), all scripts over a 15-symbol alphabet up to length 2 (thorough 3) polled to quiescence after "
              "every event, all continuations of an acknowledged handshake over a 10-symbol alphabet of length 2-3 "
-             "(thorough 3-4, every second one injected without intermediate polls), and random scripts of 3-40 events "
-             "with random batching; every poll_next call of the real WebSocket is one observation (frames taken from "
+             "(thorough 3-4, every second one injected without intermediate polls), all sequences of length 2-4 (thorough 2-5) over "
+             "{item a, item b, end a, stop a, stop b, ONE poll_next} after a handshake with operations a and b running (several "
+             "streams ready in the same poll, client frames between single polls), and random scripts of 3-40 events "
+             "with random batching and single-step polling (incl. 'stop the operation the last frame did not carry'); every poll_next call of the real WebSocket is one observation (frames taken from "
              "the client stream + message/end/pending); distinct by script text; non-trivial = the server sent at least one message"),
     "trusted": ["harness/src/bin/c25.rs: channel-backed client stream with a counting wrapper, gate-driven on_connection_init/on_ping, "
                 "manual runtime::Timer, subscription source streams taken from a registry, flag waker, decoding of outgoing frames",
